@@ -23,10 +23,12 @@ pub enum ErrKind {
     ConnectionReset,
     WouldBlock,
     TimedOut,
+    /// the kind the header stripper itself uses for "expected newline"
+    InvalidData,
 }
 
 impl ErrKind {
-    pub const ALL: [ErrKind; 5] = [ErrKind::Other, ErrKind::UnexpectedEof, ErrKind::ConnectionReset, ErrKind::WouldBlock, ErrKind::TimedOut];
+    pub const ALL: [ErrKind; 6] = [ErrKind::Other, ErrKind::UnexpectedEof, ErrKind::ConnectionReset, ErrKind::WouldBlock, ErrKind::TimedOut, ErrKind::InvalidData];
     pub fn io(self) -> io::ErrorKind {
         match self {
             ErrKind::Other => io::ErrorKind::Other,
@@ -34,6 +36,7 @@ impl ErrKind {
             ErrKind::ConnectionReset => io::ErrorKind::ConnectionReset,
             ErrKind::WouldBlock => io::ErrorKind::WouldBlock,
             ErrKind::TimedOut => io::ErrorKind::TimedOut,
+            ErrKind::InvalidData => io::ErrorKind::InvalidData,
         }
     }
     pub fn name(self) -> &'static str {
@@ -43,6 +46,7 @@ impl ErrKind {
             ErrKind::ConnectionReset => "ConnectionReset",
             ErrKind::WouldBlock => "WouldBlock",
             ErrKind::TimedOut => "TimedOut",
+            ErrKind::InvalidData => "InvalidData",
         }
     }
     pub fn from_name(s: &str) -> Option<ErrKind> {
@@ -210,9 +214,19 @@ pub fn apply_content_fault(chunks: &mut Vec<Vec<u8>>, f: ContentFault, rng: &mut
 
 /// Interleave control events with the data chunks.
 pub fn interleave(chunks: Vec<Vec<u8>>, eintr_pct: u64, hard: Option<(usize, ErrKind)>, rng: &mut Rng, st: &mut TransportStats) -> Vec<Event> {
-    let mut ev = Vec::with_capacity(chunks.len() + 4);
     let n = chunks.len();
+    let mut ev = Vec::with_capacity(n + 4);
+    // one long burst of EINTR (a signal storm) somewhere in the stream, now and then
+    let burst_at = if eintr_pct > 0 && rng.chance(1, 12) { Some((rng.below_usize(n + 1), *rng.pick(&[16usize, 64, 300]))) } else { None };
     for (i, c) in chunks.into_iter().enumerate() {
+        if let Some((at, len)) = burst_at {
+            if at == i {
+                for _ in 0..len {
+                    ev.push(Event::Interrupted);
+                    st.interrupted += 1;
+                }
+            }
+        }
         while eintr_pct > 0 && rng.chance(eintr_pct, 100) {
             ev.push(Event::Interrupted);
             st.interrupted += 1;
@@ -314,6 +328,9 @@ pub struct SimReader {
     events: std::collections::VecDeque<Event>,
     pub log: ReadLog,
     budget: u64,
+    /// scribble over the unused tail of the caller's buffer (the `Read` contract promises nothing
+    /// about `buf[n..]`, so a consumer must not look at it)
+    pub poison: bool,
 }
 
 pub const POST_EOF_BUDGET: u64 = 1000;
@@ -327,7 +344,7 @@ impl SimReader {
                 _ => 1,
             })
             .sum();
-        SimReader { events: events.iter().cloned().collect(), log: ReadLog::default(), budget: 4 * total as u64 + 1000 }
+        SimReader { events: events.iter().cloned().collect(), log: ReadLog::default(), budget: 16 * total as u64 + 10_000, poison: false }
     }
 }
 
@@ -371,6 +388,11 @@ impl Read for SimReader {
                     }
                     let n = c.len().min(buf.len());
                     buf[..n].copy_from_slice(&c[..n]);
+                    if self.poison {
+                        for (k, b) in buf[n..].iter_mut().enumerate().take(64) {
+                            *b = if k % 2 == 0 { b'{' } else { 0xAA };
+                        }
+                    }
                     if n < c.len() {
                         self.events.push_front(Event::Data(c[n..].to_vec()));
                     }
